@@ -25,6 +25,12 @@ NA = {
 
 # property -> (category, technique, level text, level note, design ref)
 CLAIMED = {
+    "C30": ("model_checking", "real cost functions called on z3 terms, compared with guarded link-by-link routing sums (bounded SMT)",
+            "Bounded SMT: per_loop_transfer_cost of both topology models is executed on z3 terms (fan-out n symbolic in 1..32/64, volume unbounded real, stride case-split over 1..8/16); z3 shows reported total hops and max link traffic equal a routing reference for every n and volume.",
+            "Non-distributed source co-located with destination 0; straight-line mesh routes; distributed sources and partially relevant loops outside; known finding: single-destination multicast traffic.", "4/C30"),
+    "C32": ("model_checking", "CrossHair symbolic execution of parallel() with a contract stub for joblib.Parallel",
+            "CrossHair explores all paths of the real parallel() for symbolic job payloads, symbolic completion permutations and worker counts, job count <= 5 (quick) / 6 (thorough); only 'Confirmed over all paths' counts.",
+            "joblib.Parallel replaced by its contract (unordered generator = arbitrary permutation); pbar off; counterexamples are replayed on real joblib workers with sleeps.", "4/C32"),
     "C26": ("model_checking", "symbolic execution of the real cost code on sympy symbols + z3 (bounded SMT)",
             "Bounded SMT: for each generated architecture tree the real calculate_component_costs runs once with symbolic per-instance area/leak; z3 shows total == per-instance x product of fan-outs on the path (own included) for all positive costs. Bounded by the tree family (depth<=4, <=600 trees).",
             "Fan-outs are concrete distinct primes (they pass through int()); Array/Network nodes outside; expected instance counts come from the generator's own tree.", "4/C26"),
